@@ -164,6 +164,74 @@ def cqd_check(rng, spec, ops, driver=None):
     return None
 
 
+def final_only_stream(rep, rng, n):
+    """histories during which NOTHING is read (no stats, no best_elite, no data): only the add feedback is kept.  At the end obj_max must
+    be the highest objective accepted since the last clear and best_elite a complete accepted entry with that objective -- also when its
+    cell was meanwhile overwritten by a lower objective (CMA-MAE) -- and the other statistics must agree with data()."""
+    for _ in range(n):
+        spec = au.gen_spec(rng, kinds=("grid", "cvt"), cma=rng.random() < 0.75, max_cells=12)
+        spec["extras"] = []
+        ops = au.gen_history(rng, spec, rng.randint(3, 12), 5, lambda r: r.randrange(-64, 65) / 8.0, tie_rate=0.3, clear_rate=0.05)
+        archive = au.make_archive(spec)
+        best = None           # (objective, id) of the first accepted candidate with the highest objective since the last clear
+        acc = {}
+        for op in ops:
+            if op[0] == "clear":
+                archive.clear()
+                best = None
+                acc = {}
+                continue
+            cands = op[1] if op[0] == "add" else [op[1]]
+            if op[0] == "add":
+                info = archive.add(**au.batch_arrays(spec, cands, op[2] if len(op) > 2 else "nd"))
+                sts = [int(x) for x in info["status"]] if cands else []
+            else:
+                info = archive.add_single(**au.single_args(spec, cands[0], op[2] if len(op) > 2 else "nd"))
+                sts = [int(info["status"])]
+            dtype = au.DT[spec["dtype"]]
+            # what _stats_update sees: per call, the stored winner(s); the highest objective among the members that were STORED
+            d_now = None
+            for c, st in zip(cands, sts):
+                if st != 0:
+                    o = float(dtype(c[1]))
+                    acc[c[0]] = o
+                    if best is None or o > best[0]:
+                        # only a candidate that actually ended up stored by this call can become the best elite; within one batch the
+                        # per-cell winner is the highest objective, so the batch maximum among accepted members is always stored
+                        best = (o, c[0])
+        rep.count("final_only_cases")
+        st = archive.stats
+        be = archive.best_elite
+        d = archive.data()
+        if best is None:
+            if be is not None and len(d["index"]) == 0:
+                rep.violation("final-only read: nothing was accepted since the last clear but best_elite = %r" % (be,), {"kind": "property", "case": {"spec": spec, "ops": ops}},
+                              True, {"kind": "final-only-best-elite"})
+                return
+            continue
+        problem = None
+        if st.obj_max is None or float(st.obj_max) != best[0]:
+            problem = "stats.obj_max = %r but the highest objective accepted since the last clear is %r" % (st.obj_max, best[0])
+        elif be is None or float(be["objective"]) != best[0]:
+            problem = "best_elite has objective %r but obj_max is %r" % (None if be is None else float(be["objective"]), best[0])
+        else:
+            i = au.decode_elite(spec, {k: v for k, v in be.items() if k in ("solution", "measures", "objective")}, {})
+            if isinstance(i, tuple):
+                problem = "best_elite is a torn entry: %s" % (i,)
+            elif acc.get(i) != best[0]:
+                problem = "best_elite carries solution id %r, which is not an accepted candidate with objective %r" % (i, best[0])
+        if problem is None and len(d["index"]):
+            objs = np.asarray(d["objective"], dtype=np.float64)
+            want = float(np.sum(objs - float(spec["offset"])))
+            if abs(float(st.qd_score) - want) > 1e-6 * (float(np.sum(np.abs(objs))) + 100.0) or st.num_elites != len(objs):
+                problem = "stats.qd_score = %r / num_elites = %r but data() gives %r / %d" % (float(st.qd_score), st.num_elites, want, len(objs))
+        if problem:
+            rep.violation("statistics / best_elite read only at the end of a history: " + problem,
+                          {"kind": "property", "broken": "C06 (stats and best_elite agree with the contents after any history)", "case": {"spec": spec, "ops": ops}},
+                          True, {"kind": "final-only-best-elite"})
+            return
+
+
 def nontrivial(case):
     """history with a clear, a call that inserts nothing after an insertion, and >= 2 calls hitting one measure point"""
     ops = case["ops"]
@@ -228,3 +296,4 @@ def check(rep, tier, seed, driver):
         if e:
             rep.violation("cqd_score: " + e, {"kind": "property", "case": {"spec": spec, "ops": ops}, "broken": "cqd_score formula on current elites"}, True, {"kind": "cqd"})
             break
+    final_only_stream(rep, rng, 150 if tier == "quick" else 2500)
